@@ -1205,8 +1205,14 @@ def judge_accept(run, p: Params, out: Outcome) -> bool:
                  f"{run.refreshes} refreshes\n{run.exc_tb}")
         return False
     seen = {}
+    # the context a root cause is confined to is part of its name, so that a listed finding about synthetic media (or
+    # about one vendor template) cannot hide the same message on a fixture stream (or another template)
+    kind = p.stream if p.stream in ("bbb", "tears") else "synthetic"
     for e in run.errors:
-        seen.setdefault("accept/" + error_sig(e), f"{where}: [{e.location}] {e.msg[:300]} (iteration {run.iterations}, "
+        sig = "accept/" + error_sig(e) + "@" + kind
+        if "publishTime must be present" in e.msg:
+            sig += "/" + p.case["template"]
+        seen.setdefault(sig, f"{where}: [{e.location}] {e.msg[:300]} (iteration {run.iterations}, "
                         f"{run.refreshes} refreshes, {len(run.errors)} errors in all)")
     for s, d in seen.items():
         out.fail(s, d)
@@ -1221,7 +1227,8 @@ def judge_accept(run, p: Params, out: Outcome) -> bool:
         if p.degenerate_depth():
             out.trivial = "degenerate-depth-no-termination"
             return False
-        out.fail(f"accept/does-not-terminate/{p.mode}", f"{where}: {run.abort or 'not finished'} after {run.iterations} "
+        kind = p.stream if p.stream in ("bbb", "tears") else "synthetic"
+        out.fail(f"accept/does-not-terminate/{p.mode}@{kind}/{p.case['template']}", f"{where}: {run.abort or 'not finished'} after {run.iterations} "
                  f"iterations, {run.refreshes} refreshes, {len(run.fetches)} requests, slept {run.slept:.1f}s "
                  f"(minimumUpdatePeriod {p.mup_s}, timeShiftBufferDepth {p.tsbd_s}, segment {p.seg_s}s)")
         return False
